@@ -104,6 +104,11 @@ def run(ctx):
             # a combination the language defines must not be handed to the host instead
             ctx.fail('oracle', c, impl=ri, model=rm, expect='no defer for a defined combination', note='defined combination was deferred')
             continue
+        if rm is not None and not skip and ri != rm and ri and ri.startswith('err UnsupportedOpTypes') and rm.startswith('ok '):
+            # the step FAILS with the very error code that stands for "no result defined for these operand types", on operands for
+            # which the model — and the code before — continue with a value: execution must not fail on such a combination
+            ctx.fail('oracle', c, impl=ri, model=rm, expect=rm, note='execution fails with UnsupportedOpTypes instead of continuing (unit after one offer to the host, or the defined result)')
+            continue
         if rm is not None and not skip and ri != rm:
             dis += 1
             ctx.fail('corr', c, impl=ri, model=rm, expect=rm, note='implementation differs from the Lean model (OP suite)')
